@@ -325,6 +325,7 @@ OPS = [
   ("placeholder_in_tabulation_unresolvable", "*", lambda it, info, rng: set_tab(it, "cutoff", "${rcut}")),
   # ---- not an INI file
   ("file_not_utf8_latin1_comment", "*", raw(lambda t, rng: ("# cutoff in \u00c5ngstr\u00f6m\n" + t).encode("latin-1"))),
+  ("file_not_utf8_latin1_label", "*", raw(lambda t, rng: t.replace("[Pair]", "[Pair]\n\u00c5-\u00c5 : as.constant 1.0").encode("latin-1"))),
   ("file_not_utf8_binary", "*", raw(lambda t, rng: b"PK\x03\x04\x14\x00\x06\x00\x08\x00\x00\x00!\x00\xff\xfe\x9c\xa8" + t.encode("utf8"))),
   ("text_without_section_header", "*", raw(lambda t, rng: "nr : 10\n" + t)),
   ("unterminated_section_header", "*", raw(lambda t, rng: t.replace("[Pair]", "[Pair", 1))),
@@ -355,6 +356,15 @@ def gen_cases(rng, tier):
           continue
         route = "main" if (oi + ti + rep) % 5 == 0 else "inproc"
         cases.append({"kind": "mutant", "op": name, "target": target, "seed": seed, "route": route})
+  # the model read from standard input ('potable - OUT'): a valid model, and the operators that damage the file as a
+  # whole (bytes that are not UTF-8, no INI text) - under the C locale and under a UTF-8 locale
+  for ti, target in enumerate(["LAMMPS", "setfl", "GULP", "DL_POLY_EAM_fs"]):
+    seed = rng.randrange(1 << 30)
+    for loc in ("C", "C.UTF-8"):
+      cases.append({"kind": "valid", "target": target, "seed": seed, "route": "stdin", "locale": loc})
+      for name in ("file_not_utf8_latin1_comment", "file_not_utf8_binary", "file_not_utf8_latin1_label", "unknown_target", "empty_definition"):
+        if any(o[0] == name for o in OPS):
+          cases.append({"kind": "mutant", "op": name, "target": target, "seed": seed, "route": "stdin", "locale": loc})
   # option values exactly as the reference manual lists them
   for target in ["DL_POLY", "DLPOLY", "DL_POLY_EAM_fs", "DL_POLY_EAM", "eam_adp", "excel", "excel_eam", "excel_eam_fs", "GULP", "LAMMPS_eam_alloy", "setfl", "LAMMPS", "setfl_fs"]:
     cases.append({"kind": "valid", "target": target, "seed": rng.randrange(1 << 30), "route": "main", "documented": True})
@@ -391,6 +401,18 @@ def classify_main(text):
   return {"outcome": "internal", "exc": et, "func": fn, "msg": res["err"][-200:], "bytes": nbytes}
 
 
+def classify_stdin(text, loc):
+  raw_ = text if isinstance(text, bytes) else text.encode("utf8")
+  res = routes.run_potable(["-", "@OUT"], None, stdin=raw_, extra_env={"LC_ALL": loc, "LANG": loc, "PYTHONUTF8": "0", "PYTHONIOENCODING": ""})
+  nbytes = len(res["data"]) if res["exists"] and res["data"] else 0
+  if res["rc"] == 0:
+    return {"outcome": "accepted", "bytes": nbytes}
+  if res["rc"] == 2 and "configuration error - " in res["err"]:
+    return {"outcome": "config_error", "msg": res["err"].strip().split("\n")[-1][:200], "bytes": nbytes}
+  last = [l for l in res["err"].strip().split("\n") if l.strip()][-1:] or ["?"]
+  return {"outcome": "internal", "exc": last[0].split(":")[0][:40], "func": "potable(stdin)", "msg": res["err"][-200:], "bytes": nbytes}
+
+
 def run_case(case, ctx):
   rng = random.Random(case["seed"])
   target = case["target"]
@@ -402,6 +424,9 @@ def run_case(case, ctx):
   ctx.cls("target:" + target)
   ctx.cls("route:" + case["route"])
   classify = classify_main if case["route"] == "main" else classify_inproc
+  if case["route"] == "stdin":
+    classify = lambda t_: classify_stdin(t_, case["locale"])
+    ctx.cls("stdin_locale:" + case["locale"])
   if case["route"] == "main":
     ctx.count("cli_outcomes")
   if case["kind"] == "valid":
